@@ -62,6 +62,9 @@ func (x *Exec) intrinsic(name string, fn *ssa.Function, args []Value) (Value, bo
 	if r, ok := x.ioNative(name, fn, args); ok {
 		return r, true
 	}
+	if r, ok := x.reflectNative(name, fn, args); ok {
+		return r, true
+	}
 	switch name {
 	case "internal/bytealg.IndexByte":
 		return x.indexByte(x.sliceBytes(args[0].(SliceV)), args[1].(*Term)), true
@@ -309,7 +312,12 @@ func (x *Exec) report(cond *Term, msg string, isPanic bool) {
 		x.recordViolation(msg, m2, isPanic)
 		return
 	}
-	_, m, _ := x.solver.ask(x.pc, cond, x.inputs)
+	sat, m, unk := x.solver.ask(x.pc, cond, x.inputs)
+	if unk || !sat {
+		// the verdict that led here could not be repeated with a model: no witness, no claim
+		x.res.addInconclusive("solver unknown while extracting a counterexample: " + msg)
+		return
+	}
 	x.recordViolation(msg, m, isPanic)
 }
 
